@@ -157,3 +157,20 @@ Example c19_layout_nonvacuous :
   (* a 12-byte element type in an Array of 3 slots on a 64-bit debug build: H = 24, w = 8 *)
   array_step 24 8 12 = 40 /\ array_body 24 8 12 1 = 64 /\ array_block 24 8 12 3 = 120.
 Proof. repeat split. Qed.
+
+(* Tree nodes site by site: for EVERY key size (multiple of sizeof(var) or not) the place where Tree_Alloc writes
+   the value's header is the place Tree_Val reads it, the value fits the block Tree_Alloc requested, and Tree_Rem
+   copies exactly the node.  Which size expression each of the four sites uses is read off the source. *)
+Theorem c19_tree_sites_agree :
+  forall H w ks vs, 0 < w ->
+    tree_kbody H w + ks <= tree_site_vhead H w ks /\
+    tree_site_vhead H w ks + H = tree_site_vbody H w ks /\
+    tree_site_vbody H w ks + vs <= tree_site_block H w ks vs /\
+    tree_site_copy_end H w ks vs = tree_site_block H w ks vs.
+Proof. exact HeaderProofs.tree_sites_agree. Qed.
+Print Assumptions c19_tree_sites_agree.
+
+Example c19_tree_sites_rounding_matters :
+  (* a 4-byte key on a 64-bit build: a site that rounds and a site that does not are 4 bytes apart *)
+  ks_at true 8 4 = 8 /\ ks_at false 8 4 = 4.
+Proof. repeat split. Qed.
